@@ -11,6 +11,11 @@ def conc(tier):
         ConcScenario('treeify/insert-vs-remove-head', hasher='const', capacity=40, prefill=list(range(8)), threads=[[('insert', 8)], [('remove', 0)]], preemptions=2, yield_loads=th),
         ConcScenario('treeify/insert-vs-insert', hasher='const', capacity=40, prefill=list(range(8)), threads=[[('insert', 8)], [('insert', 9)]], preemptions=2, yield_loads=th),
         ConcScenario('list/replace-vs-remove', hasher='identity', capacity=2, prefill=[0, 4], threads=[[('insert', 4)], [('remove', 4)]], preemptions=2),
+        # a removed value is dropped after - never before - the last guard that could observe it: a reader that looks the entry up
+        # while it is being removed from a tree bin keeps its reference until it releases its own guard
+        ConcScenario('tree/get-removed-vs-compute-none', hasher='const', capacity=40, prefill=list(range(10)), threads=[[('get', 5)], [('compute_none', 5)]], preemptions=2, yield_loads=th),
+        ConcScenario('tree/get-removed-vs-untreeify-by-compute', hasher='const', capacity=40, prefill=list(range(10)), setup_removes=[0, 1, 2], threads=[[('get', 3)], [('compute_none', 3)]], preemptions=2, yield_loads=th),
+        ConcScenario('list/get-removed-vs-compute-none', hasher='identity', capacity=2, prefill=[0, 4], threads=[[('get', 4)], [('compute_none', 4)]], preemptions=2),
         ConcScenario('empty-bin/insert-same-key', hasher='identity', capacity=2, prefill=[0], threads=[[('insert', 1)], [('insert', 1)]], preemptions=2),
     ]
 
